@@ -243,7 +243,22 @@ def r182(ctx, rep):
     dg = ctx.project.need_fn('petl.io.json:DictsGeneratorView.__del__')
     txt = [norm(x) for x in ast.walk(dg.node) if isinstance(x, ast.Call)]
     if any('unlink(self._filecache.name' in t for t in txt) and any(t.startswith('self._filecache.close(') for t in txt):
-        rep.held('R18.2', dg, '__del__', 'closes and unlinks the spill file', dg.node)
+        # ... on every path on which the spill file exists, whatever else the finaliser looks at
+        from ..ladder import paths
+        leaks = []
+        for pth in paths(dg.node.body, {'self._filecache': True, 'self._filecache is None': False}, limit=64):
+            if pth.kind == 'raise':
+                continue
+            calls = [norm(c) for st in pth.effects for c in ast.walk(st) if isinstance(c, ast.Call)]
+            if not any('unlink(self._filecache.name' in t for t in calls):
+                leaks.append(pth)
+        if leaks:
+            cond = ', '.join('%s is %s' % (norm(t), o) for t, o in leaks[0].free) or 'some path'
+            rep.violated('R18.2', dg, '__del__',
+                         'the spill file exists (self._filecache is set) but the finaliser does not unlink it when %s: the file '
+                         'is created before the first row is asked for, so it can exist although nothing was cached' % cond, dg.node)
+        else:
+            rep.held('R18.2', dg, '__del__', 'closes and unlinks the spill file whenever it exists', dg.node)
     else:
         rep.violated('R18.2', dg, '__del__', 'the spill file of fromdicts(generator) is not closed and unlinked by __del__', dg.node)
 
